@@ -198,6 +198,17 @@ def check_election(ctx, case, max_runs):
                     ctx.fail(f"{cfg['rule']}: candidates of equal score reported in different groups without a recorded tiebreak",
                              c2, {"elected": canon.groups(elg)})
                     break
+        # equal scores are reported as tied: only the group cut by the m-th seat may be split (by the requested tiebreak)
+        pos = {c: i for i, g in enumerate([g for g in e.get_ranking() if g]) for c in g}
+        split = None
+        for g in scoring.grouped(sc):
+            if len({pos[c] for c in g}) > 1 and (tie is None or set(g) != set(tie)):
+                split = sorted(g)
+                break
+        if split:
+            ctx.fail(f"{cfg['rule']}: candidates of equal score that the last seat does not separate are not reported as tied", c2,
+                     {"equal_score_group": split, "ranking": canon.groups(e.get_ranking()), "m": m})
+            continue
         # full ranking: losers in non-increasing score order too
         rk = [g for g in e.get_ranking() if g]
         vals = [[sc[c] for c in g] for g in rk]
